@@ -364,6 +364,10 @@ func genC09Obj(t *rapid.T, kind string, depth int, rels []*exact.Shape) c09Obj {
 				o.Radius = d * rapid.SampledFrom([]float64{1.0005, 1.002, 1.01, 1.03, 0.9995, 0.99, 0.97}).Draw(t, "rimf")
 			}
 		}
+		if rapid.IntRange(0, 11).Draw(t, "rzero") == 0 {
+			// the degenerate circle: non-empty and valid, so it contains and intersects itself
+			o.Radius = 0
+		}
 	case "MultiPoint", "MultiLineString", "MultiPolygon":
 		k := map[string]exact.Kind{"MultiPoint": exact.KPoint, "MultiLineString": exact.KLine, "MultiPolygon": exact.KPoly}[kind]
 		for i := rapid.IntRange(0, 3).Draw(t, "nmulti"); i > 0; i-- {
